@@ -10,6 +10,10 @@ mod simx;
 mod simgen;
 mod c08;
 mod simprops;
+mod simprog;
+mod simprops2;
+mod c34;
+mod c32;
 
 use std::io::{BufRead, Write};
 use std::path::PathBuf;
@@ -55,6 +59,16 @@ fn main() {
         "c16" => simprops::c16(&mut o, &mut ex, seed, thorough),
         "c27" => simprops::c27(&mut o, &mut ex, seed, thorough),
         "c28" => simprops::c28(&mut o, &mut ex, seed, thorough),
+        "c13" => simprops2::c13(&mut o, &mut ex, seed, thorough),
+        "c10" => simprops2::c10(&mut o, &mut ex, seed, thorough),
+        "c11" => simprops2::c11(&mut o, &mut ex, seed, thorough, false),
+        "c12" => simprops2::c12(&mut o, &mut ex, seed, thorough),
+        "c29" => simprops2::c29(&mut o, &mut ex, seed, thorough),
+        "c30" => simprops2::c30(&mut o, &mut ex, seed, thorough),
+        "c33" => simprops2::c33(&mut o, &mut ex, seed, thorough),
+        "c34" => c34::gen(&mut o, &mut ex, seed, thorough),
+        "c32" => c32::gen(&mut o, &mut ex, seed, thorough),
+        "c31" => c32::c31(&mut o, &mut ex, seed, thorough),
         _ => { eprintln!("unknown subcommand {sub}"); std::process::exit(2); }
     }
     o.finish();
